@@ -58,7 +58,7 @@ def random_script(rng, i, nops):
         private = rng.random() < 0.5
         allow = sorted(rng.sample(range(1, nnodes + 1), rng.randint(0, 2))) if private else []
         delegates = [0] if stored and rng.random() < 0.7 else [rng.randint(1, nnodes)]
-        repos.append({"stored": stored, "seeded": stored or rng.random() < 0.3, "private": private,
+        repos.append({"stored": stored, "seeded": stored or rng.random() < 0.5, "private": private,
                       "allow": allow, "delegates": delegates})
     persistent = sorted(rng.sample(range(1, npeers + 1), rng.randint(0, 1))) if rng.random() < 0.3 else []
     ops = []
@@ -195,6 +195,11 @@ def scripted():
         # relayed to a subscriber outside the allow list (seeded change C11c: relay() trusting the cached inventory)
         dict(base, run="s-private-while-running-relay", ops=[["connect", 1], ["connect", 2], ["sub", 2, "all", ZEROT, MAXT], ["ann", 1, 3, "node", 0, 200, True, 0],
              ["ann", 1, 3, "refs", 1, 300, True, 1], ["vis", 1, True, [1]], ["ann", 1, 3, "refs", 1, 400, True, 2], ["tick", 7000]]),
+        # a private repository that is seeded but not (yet) in storage: its visibility cannot be determined, so a
+        # third party's refs announcement about it is relayed to nobody (seeded change C11d)
+        dict(base, repos=MODEL_REPOS + [{"stored": False, "seeded": True, "private": True, "allow": [], "delegates": [3]}],
+             run="s-relay-private-not-stored", ops=[["connect", 1], ["connect", 2], ["sub", 2, "all", ZEROT, MAXT],
+             ["ann", 1, 3, "node", 0, 200, True, 0], ["ann", 1, 3, "refs", 4, 300, True, 1], ["tick", 7000]]),
         dict(base, run="s-ts-zero", ops=[["connect", 1], ["ann", 1, 3, "node", 0, ZEROT, True, 0], ["ann", 1, 1, "node", 0, 5, True, 0]]),
         dict(base, run="s-inverted-range", ops=[["connect", 1], ["sub", 1, "all", 10, 5], ["ann", 1, 1, "node", 0, 5, True, 0]]),
         dict(base, run="s-clock-backward", ops=[["connect", 1], ["sub", 1, "all", ZEROT, MAXT], ["refs", 1], ["refs", 1], ["settime", -5000], ["refs", 1],
